@@ -41,13 +41,14 @@ package cluster
 //	reply:s    the complete response of in-flight stream s is read / lreset:s local reset (time-out) of s
 //	flip:a     health flip of address a
 //	upd:i      UpdateClusterHosts(list i): {a0,a1} | {a1} (a0 removed) | {a0 tls_disable,a1} | {a0 other metadata,a1}
-//	           (thorough: | {a0,a1,a2} | {}) - always NEW host objects, so: host removed, re-added, re-added
+//	           (thorough: | {a0,a1,a2} | {} | {a0..a3}: more hosts than the retry loop tries) - always NEW host objects, so: host removed, re-added, re-added
 //	           with another TLS state / other metadata
 //	rem:a      RemoveClusterHosts([a])
 //	scp:P:a    ShutdownConnectionPool(P, a), P in {vboltpp, bolt, "" = every protocol}
 //	tls:t      UpdateTLSManager(T0 disabled | T1 | T2 (another hash)); the cluster uses the manager's TLS context
 //	cf:a       connects to address a fail from now on / succeed again
-//	thorough:  rclose:c (peer closes connection c), cstls (Disable/EnableClientSideTLS), rpc (RemovePrimaryCluster)
+//	thorough:  rclose:c (peer closes connection c), cstls (Disable/EnableClientSideTLS), rpc (RemovePrimaryCluster),
+//	           cp / scp with a protocol nobody registered (must change nothing)
 //
 // Reference model (kept by the harness, never read from the code under test):
 // intended membership (ordered list of address + tls_disable + metadata), health
@@ -129,10 +130,10 @@ import (
 const (
 	c09mPart    = "manager-pools-bfs"
 	c09mCluster = "c09m"
-	c09mMaxU    = 3
+	c09mMaxU    = 4
 )
 
-var c09mAddrs = []string{"10.9.1.1:80", "10.9.2.1:80", "10.9.3.1:80"}
+var c09mAddrs = []string{"10.9.1.1:80", "10.9.2.1:80", "10.9.3.1:80", "10.9.4.1:80"}
 
 func c09mAddrIndex(a string) int {
 	for i, x := range c09mAddrs {
@@ -181,6 +182,8 @@ func c09mProtoName(p string) api.ProtocolName {
 		return c09mPPName
 	case "mx":
 		return bolt.ProtocolName
+	case "zz":
+		return "c09m-unregistered"
 	}
 	return ""
 }
@@ -481,6 +484,7 @@ var c09mLists = [][]c09mSpec{
 	{{A: 0, Meta: "v2"}, {A: 1}},
 	{{A: 0}, {A: 1}, {A: 2}},
 	{},
+	{{A: 0}, {A: 1}, {A: 2}, {A: 3}}, // more hosts than the retry loop tries (maxHostsCounts = 3)
 }
 
 func c09mHostConfigs(l []c09mSpec) []v2.Host {
@@ -520,8 +524,9 @@ func (o c09mOp) String() string {
 }
 
 type c09mCase struct {
-	ClusterPool bool     `json:"cluster_pool"`
-	TLS0        int      `json:"tls0"` // TLS generation the manager starts with
+	ClusterPool bool     `json:"cluster_pool"`           // cluster_pool_enable of the cluster
+	MgrPool     bool     `json:"manager_pool,omitempty"` // cluster_pool_enable of the cluster manager config
+	TLS0        int      `json:"tls0"`                   // TLS generation the manager starts with
 	U           int      `json:"u"`
 	Full        bool     `json:"full"` // thorough alphabet
 	Depth       int      `json:"depth"`
@@ -529,7 +534,11 @@ type c09mCase struct {
 }
 
 func (c c09mCase) tag() string {
-	return fmt.Sprintf("clusterpool=%v|tls0=T%d|u%d|full=%v", c.ClusterPool, c.TLS0, c.U, c.Full)
+	cp := fmt.Sprint(c.ClusterPool)
+	if c.MgrPool {
+		cp += "+manager"
+	}
+	return fmt.Sprintf("clusterpool=%s|tls0=T%d|u%d|full=%v", cp, c.TLS0, c.U, c.Full)
 }
 
 // ---------------------------------------------------------------------------
@@ -604,6 +613,7 @@ func c09mNewWorld(c c09mCase) *c09mWorld {
 	cc.CirBreThresholds = v2.CircuitBreakers{Thresholds: []v2.Thresholds{{MaxConnections: 0, MaxRequests: 64}}}
 	cfg := &v2.ClusterManagerConfig{}
 	cfg.TLSContext = *c09mTLS(c.TLS0)
+	cfg.ClusterPoolEnable = c.MgrPool
 	w.cm = NewClusterManagerSingleton([]v2.Cluster{cc}, map[string][]v2.Host{c09mCluster: c09mHostConfigs(w.members)}, cfg)
 	snap := w.cm.GetClusterSnapshot(context.Background(), c09mCluster)
 	if snap == nil || snap.ClusterInfo() == nil {
@@ -690,7 +700,7 @@ func (w *c09mWorld) scanMaps() map[*c09mPool][]c09mLoc {
 
 func (w *c09mWorld) wantLoc(p *c09mPool) c09mLoc {
 	l := c09mLoc{family: "global", proto: string(c09mProtoName(p.proto)), addr: p.addr}
-	if w.c.ClusterPool {
+	if w.c.ClusterPool || w.c.MgrPool {
 		l.family, l.cluster = "cluster", c09mCluster
 	}
 	return l
@@ -878,7 +888,7 @@ func (w *c09mWorld) apply(op c09mOp) (outcome string) {
 		n := 0
 		for p, locs := range before {
 			if p.addr == addr && (op.P == "" || op.P == p.proto) && len(locs) > 0 {
-				n++
+				n++ // (P = zz, an unregistered protocol, matches no pool: the call must change nothing)
 			}
 		}
 		w.cm.ShutdownConnectionPool(c09mProtoName(op.P), addr)
@@ -939,6 +949,15 @@ func (w *c09mWorld) apply(op c09mOp) (outcome string) {
 
 // connPool is the event cp: what the proxy does for one upstream request.
 func (w *c09mWorld) connPool(op c09mOp) string {
+	if op.P == "zz" {
+		// a protocol nobody registered: no pool, and (state oracle) nothing changes
+		ctx := buffer.NewBufferPoolContext(variable.NewVariableContext(context.Background()))
+		pool, host := w.cm.ConnPoolForCluster(&c09mLbCtx{ctx: ctx}, w.cm.GetClusterSnapshot(context.Background(), c09mCluster), c09mProtoName(op.P))
+		if pool != nil || host != nil {
+			w.lease = append(w.lease, c09mFinding{"mgr M3 a pool / host is returned for a protocol that is not registered", fmt.Sprintf("%v: pool %v host %v", op, pool, host)})
+		}
+		return "no-pool:unregistered-protocol"
+	}
 	if op.P != "pp" && op.P != "mx" {
 		w.harness("bad protocol in %v", op)
 		return "bad"
@@ -983,8 +1002,11 @@ func (w *c09mWorld) connPool(op c09mOp) string {
 		switch {
 		case op.P == "pp" && len(healthyMembers) > 0:
 			add("M3 no pool although a healthy member exists", state)
-		case op.P == "mx" && len(connectable) > 0:
+		case op.P == "mx" && len(connectable) > 0 && len(healthyMembers) <= maxHostsCounts:
 			add("M3 no pool although a healthy member that accepts connections exists", state)
+		case op.P == "mx" && len(connectable) > 0:
+			// the loop tries maxHostsCounts hosts only: with more healthy members it may miss the one that accepts
+			w.notes = append(w.notes, "no pool although one of more than 3 healthy members accepts connections (not compared)")
 		}
 		if host != nil {
 			add("M3 a host is returned without a pool", state)
@@ -1277,7 +1299,7 @@ func (w *c09mWorld) enabled() []c09mOp {
 		for _, s := range l {
 			ok = ok && s.A < w.c.U
 		}
-		if !ok || (!w.c.Full && (i >= 4)) || (i == 4 && w.c.U < 3) {
+		if !ok || (!w.c.Full && (i == 4 || i == 5)) || (i == 6 && w.c.U < 4) {
 			continue
 		}
 		ops = append(ops, c09mOp{K: "upd", I: i})
@@ -1305,7 +1327,7 @@ func (w *c09mWorld) enabled() []c09mOp {
 				ops = append(ops, c09mOp{K: "rclose", I: c.idx})
 			}
 		}
-		ops = append(ops, c09mOp{K: "cstls"}, c09mOp{K: "rpc"})
+		ops = append(ops, c09mOp{K: "cstls"}, c09mOp{K: "rpc"}, c09mOp{K: "cp", P: "zz", I: 0}, c09mOp{K: "scp", P: "zz", I: 0})
 	}
 	return ops
 }
@@ -1370,8 +1392,10 @@ func c09mBounds() []c09mCase {
 			{U: 2, TLS0: 1, Depth: 5},
 			{U: 2, TLS0: 0, Depth: 5},
 			{U: 2, TLS0: 1, ClusterPool: true, Depth: 4},
+			{U: 2, TLS0: 1, MgrPool: true, Depth: 3},
 			{U: 3, TLS0: 1, Full: true, Depth: 4},
 			{U: 3, TLS0: 0, Full: true, ClusterPool: true, Depth: 3},
+			{U: 4, TLS0: 1, Depth: 3},
 		}
 	}
 	return []c09mCase{
@@ -1508,6 +1532,6 @@ func TestVerifC09ManagerPools(t *testing.T) {
 		bounds = append(bounds, fmt.Sprintf("%s to depth %d", c.tag(), c.Depth))
 	}
 	p.End(complete && !cut,
-		"real cluster manager singleton, one cluster (round robin, cluster-manager TLS context) whose initial members are a0, a1; real xprotocol pools (vboltpp = bolt codec in ping-pong mode -> poolPingPong, bolt -> poolMultiplex) registered through RegisterXProtocolAction / RegisterXProtocolCodec, fake connections with connect failures scripted per address; all histories over {ConnPoolForCluster(protocol, round-robin cursor) + NewStream + request | reply(s) | local reset(s) | health flip(a) | UpdateClusterHosts({a0,a1} | {a1} | {a0 tls_disable,a1} | {a0 other metadata,a1}; full alphabet: | {a0,a1,a2} | {}) | RemoveClusterHosts([a]) | ShutdownConnectionPool(vboltpp | bolt | every protocol, a) (quick: a0 with each, a1 with every protocol) | UpdateTLSManager(T0 disabled | T1 | T2) | connects to a fail / succeed; full alphabet: | peer closes connection c | Disable/EnableClientSideTLS | RemovePrimaryCluster}: "+strings.Join(bounds, "; "),
+		"real cluster manager singleton, one cluster (round robin, cluster-manager TLS context) whose initial members are a0, a1; real xprotocol pools (vboltpp = bolt codec in ping-pong mode -> poolPingPong, bolt -> poolMultiplex) registered through RegisterXProtocolAction / RegisterXProtocolCodec, fake connections with connect failures scripted per address; all histories over {ConnPoolForCluster(protocol, round-robin cursor) + NewStream + request | reply(s) | local reset(s) | health flip(a) | UpdateClusterHosts({a0,a1} | {a1} | {a0 tls_disable,a1} | {a0 other metadata,a1}; full alphabet: | {a0,a1,a2} | {}; 4 addresses: | {a0,a1,a2,a3}) | RemoveClusterHosts([a]) | ShutdownConnectionPool(vboltpp | bolt | every protocol, a) (quick: a0 with each, a1 with every protocol) | UpdateTLSManager(T0 disabled | T1 | T2) | connects to a fail / succeed; full alphabet: | peer closes connection c | Disable/EnableClientSideTLS | RemovePrimaryCluster | ConnPoolForCluster / ShutdownConnectionPool with an unregistered protocol}: "+strings.Join(bounds, "; "),
 		"BFS with canonical-state de-duplication; state = history replayed on a fresh manager + one event, every new canonical state replayed twice (must reproduce); canonical state = (cluster exists, published list in order with tls_disable / metadata, health bits, TLS generation, client-side TLS switch, connect-fail bits, reachable pools with TLS class and the tls_disable of their host object, multiset of open connections with pool status / address / TLS class / requests in flight, counter deviations); reference model = intended membership, health, TLS generation, fail bits, per connection address + TLS class + creating pool, per request its connection; oracle M1-M5 before and after the last event, new violations keyed by the kind of that event. Not compared: reuse of the old pool (old idle connection, outdated Host() object) for a host re-added with the same TLS state; which healthy host is chosen; error values")
 }
